@@ -6,6 +6,7 @@ index and after ViewBase.set_dtype(np.int32) -- and compared case by case: every
 be identical.  No expected values are involved beyond those of C01-C09 themselves."""
 import numpy as np
 from mc import explore
+from mc import norm as norm_mod
 
 PROP = "C19"
 TECHNIQUE = "exhaustive two-configuration differential over the enumerated C01-C09 case streams on the real code"
@@ -87,6 +88,7 @@ def _run_stream(mod, cases, bits):
         for case in cases:
             acc.begin(case)
             before = acc.fail_total
+            norm_mod.TAP = tap = []
             try:
                 mod.check(case, acc)
             except explore.Hang:
@@ -94,9 +96,10 @@ def _run_stream(mod, cases, bits):
             except Exception as e:  # noqa: BLE001  an un-guarded library call inside the check raised: that is an observation too
                 acc.outcome(("X-unguarded", type(e).__name__))
             sigs = tuple(sorted(f["kind"] for f in acc.failures[-(acc.fail_total - before):])) if acc.fail_total > before else ()
-            verdicts.append((acc.fail_total - before, sigs))
+            verdicts.append((acc.fail_total - before, sigs, tuple(tap)))
         return acc.obs_stream, verdicts
     finally:
+        norm_mod.TAP = None
         _set_width(64)
 
 
@@ -152,8 +155,11 @@ def _compare(acc, o64, v64, o32, v32):
     if o64 != o32:
         diff = next(((a, b) for a, b in zip(o64, o32) if a != b), (len(o64), len(o32)))
         acc.fail("result-depends-on-index-width", {"int64": diff[0]}, {"int32": diff[1]}, classifier=_classify(diff))
-    elif v64 != v32:
-        acc.fail("oracle-verdict-depends-on-index-width", {"int64": v64}, {"int32": v32})
+    elif v64[:2] != v32[:2]:
+        acc.fail("oracle-verdict-depends-on-index-width", {"int64": v64[:2]}, {"int32": v32[:2]})
+    elif v64[2] != v32[2]:
+        d = next(((a, b) for a, b in zip(v64[2], v32[2]) if a != b), (len(v64[2]), len(v32[2])))
+        acc.fail("result-dtype-depends-on-index-width", {"int64": d[0]}, {"int32": d[1]})
 
 
 def check(case, acc):
